@@ -1,5 +1,7 @@
 //! C03 (concurrent part) / C01 support: real threads on the real queues; compared at quiescence.
-//! body: `<oq|pq> <threads> <per_thread_ops> <cap> <mode>`  mode: shared | local | mixed
+//! body: `<oq|pq> <threads> <per_thread_ops> <cap> <mode>`  mode: shared | local | mixed | starved
+//!   starved: even threads only push to the shared queue, odd threads only pop it, so pops keep
+//!   meeting a (nearly) empty queue while pushes are in flight
 //! out : `lenminusheld=<d> dup=<n> lost=<n> phantom=<n>`
 use crate::rng::Rng;
 use open_coroutine_core::common::ordered_work_steal::{OrderedLocalQueue, OrderedWorkStealQueue};
@@ -11,7 +13,7 @@ pub fn gen(r: &mut Rng, thorough: bool) -> String {
     let threads = r.range(2, if thorough { 12 } else { 8 });
     let per = if thorough { r.range(2000, 40000) } else { r.range(1000, 8000) };
     let cap = *r.pick(&[1u64, 2, 4, 8, 64, 256]);
-    let mode = *r.pick(&["shared", "shared", "local", "mixed"]);
+    let mode = *r.pick(&["shared", "shared", "local", "mixed", "starved", "starved"]);
     format!("{kind} {threads} {per} {cap} {mode}")
 }
 
@@ -61,6 +63,17 @@ fn run<QQ: Q, LL: L + 'static>(q: &'static QQ, mk_local: fn(&'static QQ) -> LL, 
             let mut rng = Rng::new(t as u64 + 1);
             let mut mine = Vec::new();
             barrier.wait();
+            if mode == "starved" {
+                if t % 2 == 0 {
+                    for k in 0..per { q.gpush(t * per + k, rng.below(3) as i64 - 1); if k % 64 == 0 { std::thread::yield_now(); } }
+                } else {
+                    for _ in 0..per * 3 { if let Some(x) = q.gpop() { mine.push(x); } }
+                }
+                // ids of the popper threads are never pushed: they count as present below
+                popped.lock().unwrap().extend(mine);
+                if t % 2 == 1 { popped.lock().unwrap().extend((0..per).map(|k| t * per + k)); }
+                return;
+            }
             for k in 0..per {
                 let id = t * per + k;
                 let p = rng.below(3) as i64 - 1;
@@ -81,7 +94,7 @@ fn run<QQ: Q, LL: L + 'static>(q: &'static QQ, mk_local: fn(&'static QQ) -> LL, 
     let mut held = 0usize;
     // drain local queues through their owners' handles first (local pops may also serve the shared queue)
     let mut from_locals = Vec::new();
-    if mode == "shared" {
+    if mode == "shared" || mode == "starved" {
         while let Some(x) = q.gpop() { held += 1; all.push(x); }
     } else {
         // count what the shared queue holds without disturbing: pop all, remember, then continue draining
